@@ -66,6 +66,11 @@ def strat_load(draw, tier):
                 targets["%d,%d" % c] = sorted(cs)
                 used.update((c, p) for p in cs)
         if targets:
+            # a chip may be listed with no cores at all (what
+            # build_application_map gives for a vertex without cores)
+            if draw(st.integers(0, 3)) == 0:
+                c = draw(st.sampled_from(chips))
+                targets.setdefault("%d,%d" % c, [])
             amap.append({"size": size, "fill": draw(st.integers(0, 255)),
                          "targets": targets})
     if not amap:
